@@ -21,6 +21,8 @@
 (*   P.names    = all identifiers of the program; P.attrs = attribute names *)
 (* External functions:  T(k, v..) tracer: appends <<"T",k,<<v..>>>> to the  *)
 (* effect log, returns a fresh token;  D(k, v..) logs and returns the next  *)
+(* (an I() list is iterated through a one-shot iterator that logs every     *)
+(*  fetch, including the one that finds it exhausted: <<"N", serial, <<j>>>>) *)
 (* decision as a bool;  I(k, v..) logs and returns a list whose length is   *)
 (* the next decision (elements are tokens);  CM(k) a context manager that  *)
 (* logs enter/exit.  Values are uniform triples (Appendix A of DESIGN.md). *)
@@ -125,7 +127,9 @@ LookV(S, env, nm) == LET j == OvIdx(S.ov, nm) IN
                      IF j # 0 THEN S.ov[j][2]
                      ELSE LET c == CellOf(envs, env, nm) IN IF c = 0 THEN Unbound ELSE cells[c]
 
-RECURSIVE Eval(_, _, _), CompLoop(_, _, _, _, _, _)
+Fetch(lg, ser, j) == IF ser = 0 THEN lg ELSE Append(lg, <<"N", ser, <<IntV(j)>>>>)     \* one next() on the iterator of list `ser`
+
+RECURSIVE Eval(_, _, _), CompLoop(_, _, _, _, _, _, _)
 Eval(e, env, S) ==
   IF S.err # "" THEN [v |-> NoneV, s |-> S] ELSE
   LET x == EX(e) IN
@@ -218,18 +222,19 @@ Eval(e, env, S) ==
         ELSE IF ri.v[1] \notin {"l", "r"} THEN [v |-> NoneV, s |-> [ri.s EXCEPT !.err = "TypeError"]]
         ELSE LET cnt == IF ri.v[1] = "l" THEN ri.v[3] ELSE ri.v[2]
                  its == [j \in 1..cnt |-> IF ri.v[1] = "l" THEN <<"e", ri.v[2], j>> ELSE IntV(j - 1)] IN
-             CompLoop(x, env, ri.s, its, 1, 0)
+             CompLoop(x, env, ri.s, its, 1, 0, IF ri.v[1] = "l" THEN ri.v[2] ELSE 0)
 
 (* the elements its[j..] of a comprehension: bind the target, evaluate the condition (if any) and the element *)
-CompLoop(x, env, S, its, j, acc) ==
+CompLoop(x, env, S0_, its, j, acc, ser) ==
+  LET S == [S0_ EXCEPT !.log = Fetch(@, ser, j)] IN
   IF j > Len(its) THEN [v |-> <<"c", acc, 0>>, s |-> S]
   ELSE LET s1 == [S EXCEPT !.ov = Append(@, <<x.name, its[j]>>)]
            rc == IF Len(x.args) = 3 THEN Eval(x.args[3], env, s1) ELSE [v |-> BoolV(TRUE), s |-> s1] IN
        IF rc.s.err # "" THEN rc
-       ELSE IF ~Truthy(rc.v) THEN CompLoop(x, env, [rc.s EXCEPT !.ov = S.ov], its, j + 1, acc)
+       ELSE IF ~Truthy(rc.v) THEN CompLoop(x, env, [rc.s EXCEPT !.ov = S.ov], its, j + 1, acc, ser)
        ELSE LET rb == Eval(x.args[2], env, rc.s) IN
             IF rb.s.err # "" THEN rb
-            ELSE CompLoop(x, env, [rb.s EXCEPT !.ov = S.ov], its, j + 1, acc + 1)
+            ELSE CompLoop(x, env, [rb.s EXCEPT !.ov = S.ov], its, j + 1, acc + 1, ser)
 
 S0X(ch, lg, ov, rd0) == [log |-> lg, di |-> 1, ch |-> ch, err |-> "", used |-> <<>>, rd |-> rd0, ops |-> <<>>, aux |-> NoneV, ov |-> ov]
 S0(ch) == S0X(ch, log, <<>>, {})
@@ -242,7 +247,7 @@ Canon(r, ch) == /\ r.s.err \notin {"ood", "bad", "big"}
 (* ---- frames --------------------------------------------------------------- *)
 Frame(k, blk, node, env) ==
   [k |-> k, blk |-> blk, i |-> 1, node |-> node, env |-> env, cenv |-> 0,
-   items |-> <<>>, comp |-> NoComp, tgt |-> <<>>, form |-> ""]
+   items |-> <<>>, comp |-> NoComp, tgt |-> <<>>, form |-> "", it |-> <<0, 0>>]
 Top      == ctrl[Len(ctrl)]
 Adv(c)   == [c EXCEPT ![Len(c)].i = @ + 1]
 HasFinally(n) == ND(n).final # <<>>
@@ -328,10 +333,11 @@ Finish ==
                      /\ ctrl' = Append(rest, [f EXCEPT !.i = 1, !.items = Tail(@)])
                 ELSE ctrl' = WithElse(rest, f.node, f.env))
     [] f.k = "for" ->
-        /\ cur' = f.node /\ UNCHANGED <<envs, dec, log, status>> /\ how' = "" /\ rd' = {}
+        /\ cur' = f.node /\ UNCHANGED <<envs, dec, status>> /\ how' = "" /\ rd' = {}
+        /\ log' = Fetch(log, f.it[1], f.it[2])
         /\ IF f.items = <<>> THEN ctrl' = WithElse(rest, f.node, f.env) /\ UNCHANGED cells /\ wr' = {}
            ELSE LET c == CellOf(envs, f.env, ND(f.node).tgt[1]) IN
-                /\ ctrl' = Append(rest, [f EXCEPT !.i = 1, !.items = Tail(@)])
+                /\ ctrl' = Append(rest, [f EXCEPT !.i = 1, !.items = Tail(@), !.it = <<@[1], @[2] + 1>>])
                 /\ cells' = SetCell(cells, c, Head(f.items)) /\ wr' = {c}
     [] f.k = "try" ->
         /\ cur' = 0 /\ Quiet
@@ -430,14 +436,16 @@ Exec(n) ==
                         ELSE WithElse(c1, n, env))
       [] d.kind = "for" ->
           WithEval(n, d.e, env, LAMBDA r :
-             /\ log' = r.s.log /\ UNCHANGED <<envs, status>> /\ how' = ""
+             /\ UNCHANGED <<envs, status>> /\ how' = ""
              /\ r.v[1] \in {"l", "r"}           \* generator guarantees an iterable (otherwise not judged)
              /\ LET cnt == IF r.v[1] = "l" THEN r.v[3] ELSE r.v[2]
                     its == [j \in 1..cnt |-> IF r.v[1] = "l" THEN <<"e", r.v[2], j>> ELSE IntV(j - 1)]
+                    ser == IF r.v[1] = "l" THEN r.v[2] ELSE 0
                     c   == CellOf(envs, env, d.tgt[1]) IN
-                IF cnt = 0 THEN ctrl' = WithElse(c1, n, env) /\ UNCHANGED cells /\ wr' = {}
-                ELSE /\ ctrl' = Append(c1, [Frame("for", d.body, n, env) EXCEPT !.items = Tail(its)])
-                     /\ cells' = SetCell(cells, c, its[1]) /\ wr' = {c})
+                /\ log' = Fetch(r.s.log, ser, 1)       \* the first fetch
+                /\ IF cnt = 0 THEN ctrl' = WithElse(c1, n, env) /\ UNCHANGED cells /\ wr' = {}
+                   ELSE /\ ctrl' = Append(c1, [Frame("for", d.body, n, env) EXCEPT !.items = Tail(its), !.it = <<ser, 2>>])
+                        /\ cells' = SetCell(cells, c, its[1]) /\ wr' = {c})
       [] d.kind = "try" ->
           /\ ctrl' = Append(c1, Frame("try", d.body, n, env)) /\ Quiet
       [] d.kind = "with" ->
